@@ -66,7 +66,7 @@ def constrain(w, ent, rng):
         w &= ~(1 << n)
         if bits(w, 15, 0) == 0:
             w |= 1 << ((n + 1) % 13)
-    elif pre == 'reglist_t':
+    elif pre in ('reglist_t', 'reglist_lt', 'reglist_st'):
         n = bits(w, 19, 16)
         w &= ~((1 << n) | (1 << 13) | (1 << 15))
         while bin(bits(w, 15, 0)).count('1') < 2:
